@@ -89,7 +89,38 @@ def forms(x):
     out = ["%d" % x if x >= 0 else "(%d)" % x, 'Number("%d")' % x, '+"%d"' % x, 'parseFloat("%d")' % x, 'JSON.parse("%d")' % x, "Number(%dn)" % x if x >= 0 else "Number(-%dn)" % -x,
            "(%s%d * 2**%d)" % (sgn, a, e), "(%sMath.pow(2, %d) * %d)" % (sgn, e, a), "(-(%d))" % -x if x < 0 else "(-(-%d))" % x, "(%d + 0)" % x if x >= 0 else "(0 + (%d))" % x,
            "(%s%d.0)" % (sgn, abs(x)), "(%s%se0)" % (sgn, abs(x)), "(function () { var t = %s%d; t++; t--; return t })()" % (sgn, abs(x)) if abs(x) < 2**53 else "(%s%d / 1)" % (sgn, abs(x))]
+    if abs(x) == 2**53:
+        # integers just beyond 2^53 whose nearest double is exactly 2^53: every way of computing them is the same number
+        out += ["(%s9007199254740993)" % sgn, "(%s(9007199254740992 + 1))" % sgn, "(%s(3002399751580331 * 3))" % sgn, '(%sparseInt("9007199254740993"))' % sgn,
+                '(%sNumber("9007199254740993"))' % sgn, "(%sNumber(9007199254740993n))" % sgn, "(function () { var t = %s9007199254740992; t%s; return t })()" % (sgn, "--" if x < 0 else "++"),
+                "(%sJSON.parse('9007199254740993'))" % sgn, "(%s9007199254740991 %s 2)" % (sgn, "-" if x < 0 else "+")]
     return out
+
+
+MISC = [('Number("-00")', "-0"), ('+"-00"', "-0"), ('"-00" * 1', "-0"), ('Number(" -000 ")', "-0"), ('Number("-0.0")', "-0"), ('Number("-0e5")', "-0"), ('Number("00")', "0"),
+        ('Number("-01")', "-1"), ('Math.min("-00")', "-0"), ('-"-00"', "0"), ('1 / Number("-00")', "-Infinity"),
+        ('Math.sign("0")', "0"), ('Math.sign("-0")', "-0"), ('Math.sign("abc")', "NaN"), ("Math.sign(null)", "0"), ("Math.sign(undefined)", "NaN"), ("Math.sign(false)", "0"),
+        ('Math.sign({valueOf: function () { return -0 }})', "-0"), ('Math.sign("")', "0"), ("Math.sign([])", "0"), ('Math.sign("-3")', "-1"),
+        ('[1, 2, 3].slice(0, "1e30").length', "3"), ('"abc".substring(0, "1e30")', '"abc"'), ('[1, 2, 3].slice("-1e30").length', "3"), ('"abc".slice("-1e400")', '"abc"'),
+        ('[1, 2, 3].indexOf(3, "-1e30")', "2"), ('"abc".charAt("1e30")', '""'), ('[1, 2, 3].at("1e30")', "undefined"), ('"abcabc".lastIndexOf("c", "1e30")', "5")]
+
+
+def _u8c_rows():
+    # ToUint8Clamp rounds ties to even (NumConv.tla covers the integer inputs; these are the fractional ones, through every store path)
+    out = []
+    for k in list(range(-2, 12)) + list(range(120, 132)) + list(range(248, 258)):
+        for fr in (0.25, 0.5, 0.75):
+            v = k + fr
+            want = min(255, max(0, round(v)))
+            for op in OPS_U8C:
+                out.append(("(function (v) { var ta; return %s })(%r)" % (op, v), "%d" % want))
+            out.append(("new Uint8ClampedArray([%s])[0]" % json.dumps(repr(v)), "%d" % want))
+    return out
+
+
+OPS_U8C = ["new Uint8ClampedArray([v])[0]", "(ta = new Uint8ClampedArray(1), ta[0] = v, ta[0])", "new Uint8ClampedArray(1).fill(v)[0]", "new Uint8ClampedArray(new Float64Array([v]))[0]",
+           "Uint8ClampedArray.of(v)[0]", "(ta = new Uint8ClampedArray(1), ta.set([v]), ta[0])", "Uint8ClampedArray.from([v])[0]"]
+MISC += _u8c_rows()
 
 
 def spellings(x):
@@ -178,6 +209,10 @@ def numconv(chk, wd, binp):
              "0x\u00a01", "\u00a0\u00a0x", "1n", "0b1n", "NaN1", "\u180e1", "1\u200b"]
     for sp in nrows:
         js.append("SNAN(%s, %d);" % (json.dumps(sp), len(rows) + len(eqrows) + len(srows) + nrows.index(sp)))
+    js.append("function MI(f, want, id) { n++; var got; try { got = f() } catch (e) { got = 'throws ' + e } if (!Object.is(got, want)) bad.push([id, String(got)]); }")
+    nbase = len(rows) + len(eqrows) + len(srows) + len(nrows)
+    for i, (ex, want) in enumerate(MISC):
+        js.append("MI(function () { return %s }, %s, %d);" % (ex, want, nbase + i))
     js.append("JSON.stringify({n: n, bad: bad})")
     src = os.path.join(wd, "numconv.js")
     open(src, "w").write("\n".join(js))
@@ -187,13 +222,17 @@ def numconv(chk, wd, binp):
         out = json.loads(r.stdout.strip().splitlines()[-1])
     except Exception:
         raise Inconclusive("numconv driver failed: %s %s" % (r.stdout[-300:], r.stderr[-300:]))
-    if out["n"] != len(rows) + len(eqrows) + len(srows) + len(nrows):
+    if out["n"] != nbase + len(MISC):
         raise Inconclusive("numconv driver evaluated %d of %d rows" % (out["n"], len(rows)))
     chk.add("conversion_rows", len(rows))
     chk.add("conversion_inputs", len(tbl))
     chk.add("equal_form_pairs", len(eqrows))
     chk.add("string_spelling_rows", len(srows))
     for i, got in out["bad"]:
+        if i >= nbase:
+            ex, want = MISC[i - nbase]
+            chk.violation("%s is %s, ToNumber / ToIntegerOrInfinity give %s" % (ex, got, want), {"module": "NumConvMisc", "expr": ex, "want": want, "got": got})
+            continue
         if i >= len(rows) + len(eqrows) + len(srows):
             sp = nrows[i - len(rows) - len(eqrows) - len(srows)]
             chk.violation("string %s is not a numeric literal, but a conversion site does not give NaN: observers %s" % (json.dumps(sp), got),
@@ -240,6 +279,19 @@ def replay(path):
         r = subprocess.run([binp, src], stdout=subprocess.PIPE, stderr=subprocess.STDOUT, text=True)
         print("a = %s; b = %s => %s" % (m0["a"], m0["b"], r.stdout.strip()))
         if "false" in r.stdout or "Error" in r.stdout:
+            print("VIOLATION property=C05 replay=%s" % path)
+            return 1
+        print("replay: agrees with the specification now")
+        return 0
+    if m0.get("module") == "NumConvMisc":
+        wd = workdir("C05r")
+        binp = os.path.join(wd, "jsrun")
+        go_build("jsrun", binp)
+        src = os.path.join(wd, "r.js")
+        open(src, "w").write("var got = %s; Object.is(got, %s) + ' ' + typeof got + ' ' + String(got)" % (m0["expr"], m0["want"]))
+        r = subprocess.run([binp, src], stdout=subprocess.PIPE, stderr=subprocess.STDOUT, text=True)
+        print("%s => %s (specified: %s)" % (m0["expr"], r.stdout.strip(), m0["want"]))
+        if not r.stdout.strip().splitlines()[-1].startswith("true"):
             print("VIOLATION property=C05 replay=%s" % path)
             return 1
         print("replay: agrees with the specification now")
